@@ -69,6 +69,10 @@ type vfdSched struct {
 	DupDelayMs    int `json:"dup_delay_ms"`
 	AsyncPct      int `json:"async_pct"` // bundle delivered asynchronously after 0..2*BundleDelayMs (reordering)
 	Slow          *vfdSlow `json:"slow,omitempty"`
+	// GarbledFirstPct: before the intact bundle, the destination is handed a copy whose signature has a flipped bit
+	// (a damaged frame, or somebody re-sending what they overheard with a signature of their own): it must be refused
+	// and must not keep the intact copy from being processed
+	GarbledFirstPct int `json:"garbled_signature_copy_first_pct,omitempty"`
 }
 
 // ---------------------------------------------------------------- network
@@ -113,6 +117,7 @@ type vfdNet struct {
 	maxLatNs   atomic.Int64 // max (delivery end - send) over bundles since the last reset
 	nPanics    atomic.Int64
 	nStuck     atomic.Int64
+	nGarbled   atomic.Int64
 	tmu        sync.Mutex
 	tm         vfdTiming
 	// onPanic is told about a panic of the real code inside a delivery (what, destination, panic value, the
@@ -429,6 +434,7 @@ func (n *vfdNet) addCounters(run *vfRun) {
 	run.Count("dkg_bundles_routed", n.nBundles.Load())
 	run.Count("dkg_bundles_answered_error", n.nBundleErr.Load())
 	run.Count("packets_duplicated", n.nDup.Load())
+	run.Count("bundles_preceded_by_a_copy_with_a_garbled_signature", n.nGarbled.Load())
 	run.Count("packets_delayed", n.nDelayed.Load())
 	run.Count("bundles_async_reordered", n.nAsync.Load())
 	run.Count("bundles_slow_link", n.nSlow.Load())
@@ -818,6 +824,31 @@ func (c *vfdClient) BroadcastDKG(_ context.Context, p net.Peer, in *pdkg.DKGPack
 			}
 		}
 		return err
+	}
+	if s.GarbledFirstPct > 0 {
+		n.mu.Lock()
+		garble := n.rng.Chance(s.GarbledFirstPct)
+		n.mu.Unlock()
+		if garble && !dest.closed.Load() {
+			bad := proto.Clone(in).(*pdkg.DKGPacket)
+			var sig []byte
+			switch b := bad.GetDkg().GetBundle().(type) {
+			case *pdkg.Packet_Deal:
+				sig = b.Deal.GetSignature()
+			case *pdkg.Packet_Response:
+				sig = b.Response.GetSignature()
+			case *pdkg.Packet_Justification:
+				sig = b.Justification.GetSignature()
+			}
+			if len(sig) > 0 {
+				sig[len(sig)/2] ^= 0x10
+				n.nGarbled.Add(1)
+				_ = n.guard("bundle-garbled:"+kind, dst, func() error {
+					_, e := dest.proc.BroadcastDKG(context.Background(), bad)
+					return e
+				})
+			}
+		}
 	}
 	if n.maybeHold(dst, false, func() {
 		sent = time.Now() // latency of a parked bundle counts from its release
